@@ -18,6 +18,33 @@ pub fn opaque(r: &mut Rng, max: usize) -> Vec<u8> {
     let n = r.size(max);
     r.bytes(n)
 }
+/// valid UTF-8 text of up to `max` bytes mixing 1..4-byte characters (names that Debug impls decode)
+pub fn utf8_text(r: &mut Rng, max: usize) -> Vec<u8> {
+    let target = r.size(max);
+    let mut s = String::new();
+    let multi = r.below(3); // 0: ascii only, 1: some multi-byte, 2: mostly multi-byte
+    while s.len() < target {
+        let c = match if multi == 0 { 0 } else { r.below(if multi == 1 { 12 } else { 4 }) } {
+            1 => char::from_u32(0x80 + r.below(0x700) as u32).unwrap_or('é'),
+            2 => char::from_u32(0x800 + r.below(0x5000) as u32).unwrap_or('語'),
+            3 => char::from_u32(0x1_0000 + r.below(0xffff) as u32).unwrap_or('𝄞'),
+            _ => (b'a' + r.below(26) as u8) as char,
+        };
+        if s.len() + c.len_utf8() > target {
+            break;
+        }
+        s.push(c);
+    }
+    s.into_bytes()
+}
+/// an opaque field that is sometimes text
+pub fn name(r: &mut Rng, max: usize) -> Vec<u8> {
+    if r.chance(1, 3) {
+        utf8_text(r, max)
+    } else {
+        opaque(r, max)
+    }
+}
 pub fn opaque_min(r: &mut Rng, min: usize, max: usize) -> Vec<u8> {
     let n = r.size(max - min) + min;
     r.bytes(n)
@@ -31,8 +58,22 @@ pub fn list_len(r: &mut Rng, max: usize) -> usize {
         _ => r.usize(0, max.min(6)),
     }
 }
+/// RFC 8446 4.1.3: the HelloRetryRequest "random" and the two downgrade sentinels
+pub const HRR_RANDOM: [u8; 32] = [
+    0xcf, 0x21, 0xad, 0x74, 0xe5, 0x9a, 0x61, 0x11, 0xbe, 0x1d, 0x8c, 0x02, 0x1e, 0x65, 0xb8, 0x91, 0xc2, 0xa2, 0x11, 0x16, 0x7a, 0xbb, 0x8c, 0x5e, 0x07, 0x9e, 0x09, 0xe2, 0xc8, 0xa8, 0x33, 0x9c,
+];
+/// 32 random bytes; now and then one of the values the TLS RFCs give a special meaning to
 pub fn random32(r: &mut Rng) -> Vec<u8> {
-    r.bytes(32)
+    match r.below(24) {
+        0 => HRR_RANDOM.to_vec(),
+        1 => {
+            let mut v = r.bytes(32);
+            v[24..].copy_from_slice(&[0x44, 0x4f, 0x57, 0x4e, 0x47, 0x52, 0x44, if r.bool() { 1 } else { 0 }]);
+            v
+        }
+        2 => vec![if r.bool() { 0 } else { 0xff }; 32],
+        _ => r.bytes(32),
+    }
 }
 pub fn sid(r: &mut Rng) -> Vec<u8> {
     match r.below(6) {
@@ -169,7 +210,7 @@ pub fn ext_variant(r: &mut Rng, sz: Sz, k: usize) -> AExt {
         0 => AExt::SniEmpty,
         1 => {
             let n = list_len(r, sz.list);
-            AExt::Sni((0..n).map(|_| (if r.chance(3, 4) { 0 } else { r.u8b() }, opaque(r, sz.opaque))).collect())
+            AExt::Sni((0..n).map(|_| (if r.chance(3, 4) { 0 } else { r.u8b() }, name(r, sz.opaque))).collect())
         }
         2 => AExt::MaxFragmentLength(r.u8b()),
         3 => AExt::StatusRequest(if r.chance(1, 4) { None } else { Some((r.u8b(), opaque(r, sz.opaque))) }),
@@ -179,7 +220,7 @@ pub fn ext_variant(r: &mut Rng, sz: Sz, k: usize) -> AExt {
         7 => AExt::Heartbeat(r.u8b()),
         8 => {
             let n = list_len(r, sz.list);
-            AExt::Alpn((0..n).map(|_| opaque(r, sz.opaque.min(255))).collect())
+            AExt::Alpn((0..n).map(|_| name(r, sz.opaque.min(255))).collect())
         }
         9 => AExt::Sct(if r.chance(1, 3) { None } else { Some(opaque(r, sz.opaque)) }),
         10 => AExt::Padding(opaque(r, sz.opaque)),
@@ -222,6 +263,33 @@ pub fn ext_variant(r: &mut Rng, sz: Sz, k: usize) -> AExt {
             AExt::Unknown(t, opaque(r, sz.opaque))
         }
     }
+}
+/// contents at (or one below) the maximum their length prefix / the 65535-byte extension allows
+pub fn ext_at_max(r: &mut Rng, k: usize, minus: usize) -> Option<AExt> {
+    let u16s = |r: &mut Rng, n: usize| -> Vec<u16> { (0..n).map(|_| r.u16()).collect() };
+    Some(match k {
+        1 => AExt::Sni(vec![(0, r.bytes(65535 - 2 - 3 - minus))]),
+        3 => AExt::StatusRequest(Some((1, r.bytes(65534 - minus)))),
+        4 => AExt::SupportedGroups(u16s(r, 32766 - minus)),
+        5 => AExt::EcPointFormats(r.bytes(255 - minus)),
+        6 => AExt::SignatureAlgorithms(u16s(r, 32766 - minus)),
+        8 => AExt::Alpn(vec![r.bytes(255 - minus); 3]),
+        9 => AExt::Sct(Some(r.bytes(65533 - minus))),
+        10 => AExt::Padding(r.bytes(65535 - minus)),
+        14 => AExt::SessionTicket(r.bytes(65535 - minus)),
+        15 => AExt::KeyShareOld(r.bytes(65535 - minus)),
+        16 => AExt::PreSharedKey(r.bytes(65535 - minus)),
+        18 => AExt::SupportedVersionsClient(u16s(r, 127 - minus)),
+        20 => AExt::Cookie(r.bytes(65535 - minus)),
+        21 => AExt::PskExchangeModes(r.bytes(255 - minus)),
+        22 => AExt::OidFilters(vec![(r.bytes(255 - minus), r.bytes(65535 - 2 - 1 - 255 - 2))]),
+        24 => AExt::KeyShare(r.bytes(65535 - minus)),
+        26 => AExt::RenegotiationInfo(r.bytes(255 - minus)),
+        27 => AExt::Esni { suite: 0x1301, group: 29, key_share: r.bytes(30000), digest: r.bytes(30000), sni: r.bytes(65535 - 4 - 6 - 60000 - minus) },
+        28 => AExt::Grease(0x3a3a, r.bytes(65535 - minus)),
+        29 => AExt::Unknown(0x1234, r.bytes(65535 - minus)),
+        _ => return None,
+    })
 }
 pub fn ext(r: &mut Rng, sz: Sz) -> AExt {
     let k = r.below(EXT_GENERATORS as u64) as usize;
@@ -501,6 +569,16 @@ pub fn len_corruptions(enc: &W) -> Vec<Corruption> {
     out
 }
 
+/// a byte drawn half from a small set of values that code tends to compare against
+pub fn interesting_byte(r: &mut Rng) -> u8 {
+    const I: [u8; 28] = [0, 1, 2, 3, 4, 5, 6, 0x0a, 0x0b, 0x0d, 0x0f, 0x10, 0x14, 0x15, 0x16, 0x17, 0x18, 0x20, 0x21, 0x40, 0x7f, 0x80, 0x81, 0xfe, 0xff, 0xfd, 0x41, 0x1a];
+    if r.bool() {
+        *r.pick(&I)
+    } else {
+        r.u8()
+    }
+}
+
 /// random byte-level mutation (bit flip / byte set / truncate / insert / duplicate chunk)
 pub fn mutate(r: &mut Rng, b: &[u8]) -> Vec<u8> {
     let mut v = b.to_vec();
@@ -513,7 +591,7 @@ pub fn mutate(r: &mut Rng, b: &[u8]) -> Vec<u8> {
             }
             1 if !v.is_empty() => {
                 let i = r.usize(0, v.len() - 1);
-                v[i] = r.u8b();
+                v[i] = interesting_byte(r);
             }
             2 if !v.is_empty() => {
                 let i = r.usize(0, v.len());
